@@ -26,20 +26,32 @@
 (*                                                                         *)
 (* The bit sequences are small here; the harness replays every behaviour   *)
 (* at several SCALES k: each abstract bit stands for k equal real bits     *)
-(* (push = k pushes, set(i) = bits i*k .. i*k+k-1, resize(n) = resize(n*k))*)
+(* (push = k pushes, set(i) = bits i*k .. i*k+k-1, resize(n) = resize(n*k);*)
+(* for an integer vector: k copies of each item)                            *)
 (* so that the same behaviours run inside one word (k = 1, 3), exactly on  *)
 (* word boundaries (64), across them (65), across rank blocks (130) and    *)
 (* select superblocks (1100).                                              *)
 (***************************************************************************)
 EXTENDS Naturals, Sequences, FiniteSets
 
-AllKinds == {"raw", "int1", "plain", "sparse", "rl"}
+AllKinds == {"raw", "int", "plain", "sparse", "rl"}
 BitKinds == {"plain", "sparse", "rl"}
-VecKinds == {"raw", "int1"}           \* int1: an integer vector of width 1 - its items are the bits
+VecKinds == {"raw", "int"}            \* int: an integer vector of width w; `bits` then holds its ITEMS (naturals below 2^w)
 Supports == {"rank", "select", "select_zero"}
 
-Obj(k, bits, sup) == [kind |-> k, bits |-> bits, sup |-> sup]
+\* w: the item width of an integer vector, 0 for every other kind
+Obj(k, bits, sup) == [kind |-> k, bits |-> bits, sup |-> sup, w |-> 0]
 NewObj(k) == Obj(k, << >>, {})
+NewInt(w) == [kind |-> "int", bits |-> << >>, sup |-> {}, w |-> w]
+
+\* the bits of an integer vector: its items, least significant bit first (this is what RawVector::from(IntVector) holds)
+Flatten(items, w) == [k \in 1..(Len(items) * w) |-> (items[((k - 1) \div w) + 1] \div (2^((k - 1) % w))) % 2]
+RECURSIVE BitLenOf(_)
+BitLenOf(v) == IF v <= 1 THEN 1 ELSE 1 + BitLenOf(v \div 2)
+\* pack(): the width of the largest item (1 for an empty or all-zero vector)
+PackedWidth(items) == IF Len(items) = 0 THEN 1 ELSE BitLenOf(CHOOSE m \in {items[i] : i \in 1..Len(items)} : \A i \in 1..Len(items) : items[i] <= m)
+\* a written value is truncated to the item width
+Item(o, v) == IF o.kind = "int" THEN v % (2^o.w) ELSE v
 
 Resized(bits, n, b) == [i \in 1..n |-> IF i <= Len(bits) THEN bits[i] ELSE b]
 Complemented(bits) == [i \in 1..Len(bits) |-> 1 - bits[i]]
@@ -47,11 +59,11 @@ Complemented(bits) == [i \in 1..Len(bits) |-> 1 - bits[i]]
 \* which conversions exist in the public API
 CanConvert(from, to) ==
     \/ from = "raw" /\ to \in {"plain", "raw"}                  \* BitVector::from(raw); clone
-    \/ from = "int1" /\ to = "raw"                              \* RawVector::from(int vector)
+    \/ from = "int" /\ to = "raw"                               \* RawVector::from(int vector)
     \/ from = "plain" /\ to \in {"raw", "plain", "sparse", "rl"}  \* RawVector::from(bv); copy_bit_vec / From
     \/ from \in {"sparse", "rl"} /\ to \in BitKinds
 
-OpClass(c) == IF c.op \in {"push", "pop", "set", "resize", "clear", "compl"} THEN "mut" ELSE c.op
+OpClass(c) == IF c.op \in {"push", "pop", "set", "resize", "clear", "compl", "pack"} THEN "mut" ELSE c.op
 
 \* is the call defined in this state (the generator issues no other call)
 Enabled(o, c) ==
@@ -61,6 +73,7 @@ Enabled(o, c) ==
       [] c.op = "resize" -> o.kind \in VecKinds
       [] c.op = "clear"  -> o.kind \in VecKinds
       [] c.op = "compl"  -> o.kind = "raw"
+      [] c.op = "pack"   -> o.kind = "int"
       [] c.op = "to"     -> CanConvert(o.kind, c.k)
       [] c.op = "enable" -> o.kind \in BitKinds
       [] c.op = "writer" -> o.kind \in VecKinds
@@ -68,13 +81,14 @@ Enabled(o, c) ==
       [] OTHER           -> TRUE                                \* reload, file, clone
 
 LStep(o, c) ==
-    CASE c.op = "push"   -> [o EXCEPT !.bits = Append(o.bits, c.b)]
+    CASE c.op = "push"   -> [o EXCEPT !.bits = Append(o.bits, Item(o, c.b))]
       [] c.op = "pop"    -> [o EXCEPT !.bits = SubSeq(o.bits, 1, Len(o.bits) - 1)]
-      [] c.op = "set"    -> [o EXCEPT !.bits[c.i + 1] = c.b]
-      [] c.op = "resize" -> [o EXCEPT !.bits = Resized(o.bits, c.n, c.b)]
+      [] c.op = "set"    -> [o EXCEPT !.bits[c.i + 1] = Item(o, c.b)]
+      [] c.op = "resize" -> [o EXCEPT !.bits = Resized(o.bits, c.n, Item(o, c.b))]
       [] c.op = "clear"  -> [o EXCEPT !.bits = << >>]
       [] c.op = "compl"  -> [o EXCEPT !.bits = Complemented(o.bits)]
-      [] c.op = "to"     -> Obj(c.k, o.bits, {})                \* a conversion yields a fresh object: no supports
+      [] c.op = "pack"   -> [o EXCEPT !.w = PackedWidth(o.bits)]  \* the items stay, the width becomes that of the largest
+      [] c.op = "to"     -> Obj(c.k, IF o.kind = "int" THEN Flatten(o.bits, o.w) ELSE o.bits, {})   \* a fresh object: no supports
       [] c.op = "enable" -> IF o.kind = "plain"
                             THEN [o EXCEPT !.sup = o.sup \cup (IF c.s = "pred_succ" THEN {"rank", "select"} ELSE {c.s})]
                             ELSE o
@@ -85,8 +99,11 @@ Flags(o) == [rank |-> "rank" \in o.sup, select |-> "select" \in o.sup, select_ze
 LifeOK(o) == /\ o.kind \in AllKinds
              /\ o.sup \subseteq Supports
              /\ (o.sup # {} => o.kind = "plain")
-             /\ \A i \in 1..Len(o.bits) : o.bits[i] \in {0, 1}
+             /\ IF o.kind = "int" THEN o.w \in 1..64 /\ \A i \in 1..Len(o.bits) : o.bits[i] < 2^o.w
+                ELSE o.w = 0 /\ \A i \in 1..Len(o.bits) : o.bits[i] \in {0, 1}
 
-\* Content: the bits change under the mutators only
-ContentStable(o, c) == OpClass(c) # "mut" => LStep(o, c).bits = o.bits
+\* Content: the bits change under the mutators only (pack keeps the items; int -> raw yields the items' bits)
+ContentOf(o) == IF o.kind = "int" THEN Flatten(o.bits, o.w) ELSE o.bits
+ContentStable(o, c) == IF c.op = "pack" THEN LStep(o, c).bits = o.bits
+                       ELSE OpClass(c) # "mut" => ContentOf(LStep(o, c)) = ContentOf(o)
 =============================================================================
